@@ -111,4 +111,28 @@ let () = iter_lines (fun line ->
           | OutOfFuel -> "FUEL") in
         Printf.printf "%s\t%s\t%s\t%s\n" (field_of_list text) (b2s (wfb_b b)) spec model
       with Failure m -> print_endline ("BADCASE " ^ m))
+  | ["M"; init; tree; op; k] ->
+      (* malformed stream: the compiled program with one line deleted (d), replaced by the generic
+         end (e) or swapped with the next one (s); only the flat machine runs *)
+      (try
+        let (b, _) = p_block (String.split_on_char ' ' tree) in
+        let w0 = init_world (list_of_field init) world0 in
+        let prog = compile b in
+        let k = int_of_string k in
+        let n = List.length prog in
+        let k = if n = 0 then 0 else k mod n in
+        let endi = { i_cmd = Some (str_of_field "101.110.100"); i_arg = ANone } in
+        let prog' = (match op with
+          | "d" -> List.filteri (fun j _ -> j <> k) prog
+          | "e" -> List.mapi (fun j i -> if j = k then endi else i) prog
+          | _ -> let a = Array.of_list prog in
+                 if k + 1 < n then (let t = a.(k) in a.(k) <- a.(k + 1); a.(k + 1) <- t);
+                 Array.to_list a) in
+        let text = List.map line_of_instr prog' in
+        let model = (match run_program flat_fuel prog' w0 with
+          | Done (w, f) -> "OK|" ^ show_world w ^ "|" ^ show_flow f
+          | Stopped (l, r, _) -> Printf.sprintf "STOP %d %s" (int_of_nat l) (kind_of_cres r)
+          | OutOfFuel -> "FUEL") in
+        Printf.printf "%s\t%s\n" (field_of_list text) model
+      with Failure m -> print_endline ("BADCASE " ^ m))
   | _ -> print_endline "BADLINE")
